@@ -386,6 +386,9 @@ impl<T: Printer + ?Sized> PrintHelper for T {
 
     fn print_variant(&mut self, v: &Variant) -> std::io::Result<usize> {
         match v {
+            // negative zero prints like zero (" 0 ", not " -0 ")
+            Variant::VSingle(f) if *f == 0.0 => self.print_number(0, true),
+            Variant::VDouble(d) if *d == 0.0 => self.print_number(0, true),
             Variant::VSingle(f) => self.print_number(f, *f >= 0.0),
             Variant::VDouble(d) => self.print_number(d, *d >= 0.0),
             Variant::VString(s) => self.print(s),
